@@ -34,6 +34,10 @@ def generate(g: Gen):
                 g.oblige("frame", f"{key}:{name}:through-parameter-{'-'.join(sorted(recv.params))}", [], z3.BoolVal(True), line)
             elif recv.kind == "SHARED":
                 g.oblige("frame", f"{key}:{name}", [], z3.BoolVal(False), line)
+            elif recv.kind == "GLOBAL":
+                # a write into module-level state (a table shared by all calls): what one call leaves there is seen by the next one - the
+                # pinned tree has no such site outside the lru_caches
+                g.oblige("frame", f"{key}:{name}:write-into-module-level-state", [], z3.BoolVal(False), line)
             else:
                 # unclassifiable receiver: undecided, never a violation
                 g.obligs.append(_undecided(g, f"{key}:frame:{name}@L{line}", line))
